@@ -445,7 +445,8 @@ def run_pt_basis(case, out, env):
                 matrix_form_failed = False
                 for form, x in (('(D,D)', rho), ('(*dim,*dim)', rho_t)):
                     out.state()
-                    ok, got = call_pt(numqi, out, x, dims, set(kset), keep, lambda: detail(form), None if form == '(D,D)' else 'rho=tensor')
+                    ok, got = call_pt(numqi, out, x, dims, set(kset), keep, lambda: detail(form),
+                                         None if (form == '(D,D)' or matrix_form_failed) else 'rho=tensor')
                     matrix_form_failed = matrix_form_failed or (form == '(D,D)' and not ok)
                     if not ok or not check_pt_output(out, got, dk, keep, lambda: detail(form)):
                         continue
@@ -997,7 +998,7 @@ def run_reduce(case, out, env):
     bij = {f: make_bij(numqi, k, dB, f) for f in FLAVOURS}
     kap0 = nD + dB**(k - 1) + 8
     small = dA * dB**k <= FULL_DM_CAP
-    kx = '/k=1' if k == 1 else ''
+    kx = ''  # (no per-k suffix: one defect, one key)
 
     def element(i, j, phase):
         st = np.zeros(N, dtype=np.complex128)
@@ -1032,9 +1033,9 @@ def run_reduce(case, out, env):
                 err = float(np.abs(g - exp).max())
                 if not err <= tol:
                     cls = 'single' if jj is None else ('same_a' if ii // nD == jj // nD else 'different_a')
-                    out.violation('dicke/partial_trace_ABk_to_AB/%s/not_embed_then_trace/%s%s' % ('numpy' if f == 'numpy' else 'torch', cls, kx),
-                                  'fast reduction of the polarisation element (i=%d, j=%r, phase=%r) for (dimA,dimB,k)=(%d,%d,%d) differs from embedding '
-                                  'with the Dicke basis and tracing out k-1 copies by %.3g (tol %.3g)' % (ii, jj, ph, dA, dB, k, err, tol), observed=g, **detail(f))
+                    out.violation('dicke/partial_trace_ABk_to_AB/%s/not_embed_then_trace' % ('numpy' if f == 'numpy' else 'torch'),
+                                  'fast reduction of the polarisation element (i=%d, j=%r, phase=%r; %s) for (dimA,dimB,k)=(%d,%d,%d) differs from embedding '
+                                  'with the Dicke basis and tracing out k-1 copies by %.3g (tol %.3g)' % (ii, jj, ph, cls, dA, dB, k, err, tol), observed=g, **detail(f))
                 if first is None:
                     first = g
             if first is not None:
@@ -1058,7 +1059,7 @@ def run_reduce_atoms(case, out, env):
     G = n_atoms(env.tier)
     rng = env.rng('C17', 'reduce_atoms', dA, dB, k)
     small = dA * dB**k <= FULL_DM_CAP
-    kx = '/k=1' if k == 1 else ''
+    kx = ''  # (no per-k suffix: one defect, one key)
     atoms = []
     for g in range(G):
         v = rng.normal(size=(dA, nD)) + 1j * rng.normal(size=(dA, nD))
@@ -1107,7 +1108,7 @@ def run_reduce_atoms(case, out, env):
                         if dt == 'c128':
                             failed_c128.add((label, f))
                             suffix = kx
-                        out.violation('%s/not_embed_then_trace/atom%s' % (site, suffix),
+                        out.violation('%s/not_embed_then_trace%s' % (site, suffix),
                                       'fast reduction of a generic vector for (dimA,dimB,k)=(%d,%d,%d), %s %s %s differs from embed-then-trace by %.3g '
                                       '(tol %.3g)' % (dA, dB, k, f, dt, layout, err, tol), observed=got, expected=exp, **detail())
                     if abs(np.trace(g128) - 1) > tol * dA * dB:
